@@ -5,6 +5,7 @@ import SeqVerif.Model.BulkMeta
 import SeqVerif.Model.BulkMetaCodec
 import SeqVerif.Model.BulkIndex
 import SeqVerif.Model.BulkResponse
+import SeqVerif.Model.BulkConfig
 import SeqVerif.Extracted.C10
 /-!
 Driver for C10.  Requests (hex = byte string, `-` = empty):
@@ -22,6 +23,8 @@ Driver for C10.  Requests (hex = byte string, `-` = empty):
      tree = `|`-separated preorder: node = `<AsBytes hex>~<trunes of encodeInsaneNode>~<o|a|x>~<#fields>~<#items>` followed by
      (`<name hex>`, node) per field and a node per item; trunes as in the C11 driver
   `bulk.resp <took ms> <total>`                             -> `ok <body hex>`   (SV.Bulk.bulkResponse = writeBulkResponse)
+  `bulk.defaults <searchTimeout> <exportTimeout> <maxInflightBulks> <allowedTimeDrift> <futureAllowedTimeDrift>`
+                                                            -> `ok <the five values after SV.Bulk.setDefaults>` (defaults: extracted consts)
   `bulk.metas <metas payload hex>`                          -> `ok <mid:rid:size:khex=vhex+...,...> reenc=<0|1>` | `err malformed`
   `bulk.delayed <docDelay> <drift> <futureDrift>`           -> `ok <0|1>`     (extracted translation of documentDelayed)
   `bulk.mid <doc ns | none> <req ns> <drift> <futureDrift>` -> `ok <MID>`
@@ -221,6 +224,13 @@ def step (line : String) : String :=
       let fmtTok (t : Bytes × Bytes) := s!"{fmtHex t.1}={fmtHex t.2}"
       "ok " ++ fmtList (fun (m : Meta) => s!"{m.mid}/{m.size}/{fmtList fmtTok m.tokens "+"}") ms ";"
     | _, _, _, _, _, _, _, _, _, _, _ => "bad-op"
+  | ["bulk.defaults", st, et, mi, dr, fu] =>
+    match st.toInt?, et.toInt?, mi.toInt?, dr.toInt?, fu.toInt? with
+    | some st, some et, some mi, some dr, some fu =>
+      let c := setDefaults SV.Extracted.C10.defaultSearchTimeout SV.Extracted.C10.defaultExportTimeout
+        SV.Extracted.C10.ingestorMaxInflightBulks ⟨st, et, mi, dr, fu⟩
+      s!"ok {c.searchTimeout} {c.exportTimeout} {c.maxInflightBulks} {c.allowedTimeDrift} {c.futureAllowedTimeDrift}"
+    | _, _, _, _, _ => "bad-op"
   | ["bulk.resp", took, total] =>
     match took.toNat?, total.toNat? with
     | some t, some n => s!"ok {fmtHex (bulkResponse t n)}"
